@@ -697,10 +697,11 @@ def rule_ex10(A: Analysis, rep, F: ExecFacts):
 
 
 def rule_terminate(A: Analysis, rep, rule: str):
-    """terminate_processes sends SIGTERM to the process group of every entry."""
+    """terminate_processes sends SIGTERM to the process group of every entry;
+    a failure for one entry (already reaped pid) must not end the loop."""
     tp = A.fn(EXE + "_InflightOperations.terminate_processes")
-    loops = [l for l in tp.node.body if isinstance(l, ast.For)]
-    ok_iter = len(loops) == 1 and norm(loops[0].iter) in ("self._processes.values()", "self._processes.items()", "list(self._processes.values())")
+    loops = [l for l in walk_local(tp.node) if isinstance(l, ast.For)]
+    ok_iter = len(loops) == 1 and norm(loops[0].iter) in ("self._processes.values()", "self._processes.items()", "list(self._processes.values())", "list(self._processes.items())")
     kills = [c for c in walk_local(tp.node) if isinstance(c, ast.Call) and norm(c.func) in ("os.killpg", "os.kill")]
     ok_kill = False
     det = "no kill call"
@@ -709,10 +710,38 @@ def rule_terminate(A: Analysis, rep, rule: str):
         sig_ok = norm(k.args[1]) == "signal.SIGTERM"
         tgt = A.xtext(k.args[0], tp)
         grp_ok = norm(k.func) == "os.killpg" and tgt.startswith("os.getpgid(") and tgt.endswith(".pid)")
-        ok_kill = sig_ok and grp_ok
-        det = "kill target `%s`, signal `%s`" % (tgt, norm(k.args[1]))
-    # the only skips: pid None, group id < 0; the only ignored errors ESRCH/ECHILD
-    g = A.cfg(tp, "plain")
+        in_loop = bool(loops) and id(k) in {id(x) for x in ast.walk(loops[0])}
+        ok_kill = sig_ok and grp_ok and in_loop
+        det = "kill target `%s`, signal `%s`, inside the loop=%s" % (tgt, norm(k.args[1]), in_loop)
+    # error containment must be per iteration: anything that swallows an exception (try/except that does not
+    # re-raise everything, contextlib.suppress) has to sit INSIDE the loop body, otherwise the first ESRCH ends the loop
+    ok_contain = True
+    cdet = ""
+    if loops:
+        lp = loops[0]
+        inside = {id(x) for x in ast.walk(lp)}
+        for n in walk_local(tp.node):
+            swallow = None
+            if isinstance(n, ast.Try) and n.handlers:
+                swallow = "try/except"
+            elif isinstance(n, ast.With) and any("suppress" in norm(it.context_expr) for it in n.items):
+                swallow = "contextlib.suppress"
+            if swallow and id(n) not in inside and id(lp) in {id(x) for x in ast.walk(n)}:
+                ok_contain = False
+                cdet = "`%s` (line %d) wraps the whole loop: the first process that is already gone ends the loop and the remaining process groups never get SIGTERM" % (swallow, n.lineno)
+        # the kill itself must be protected (ESRCH for an already reaped pid is expected)
+        protected = False
+        for k in kills:
+            for anc in _ancestors(k):
+                if anc is lp:
+                    break
+                if isinstance(anc, ast.Try) and anc.handlers:
+                    protected = True
+                if isinstance(anc, ast.With) and any("suppress" in norm(it.context_expr) for it in anc.items):
+                    protected = True
+        if kills and not protected:
+            ok_contain = False
+            cdet = cdet or "an already reaped pid makes getpgid/killpg raise and abort the loop (no per-iteration handler)"
     hs = [h for h in walk_local(tp.node) if isinstance(h, ast.ExceptHandler)]
     ok_h = True
     for h in hs:
@@ -724,6 +753,13 @@ def rule_terminate(A: Analysis, rep, rule: str):
             atoms = {a for c in dd for a, _ in c}
             if not atoms <= {"eq(errno.ESRCH,ex.errno)", "eq(errno.ECHILD,ex.errno)"}:
                 ok_h = False
+    for n in walk_local(tp.node):
+        if isinstance(n, ast.With):
+            for it in n.items:
+                if "suppress" in norm(it.context_expr) and isinstance(it.context_expr, ast.Call):
+                    names = {norm(a) for a in it.context_expr.args}
+                    if not names <= {"ProcessLookupError", "ChildProcessError"}:
+                        ok_h = False
     conts = [c for c in walk_local(tp.node) if isinstance(c, ast.Continue)]
     ok_skip = True
     for c in conts:
@@ -734,9 +770,10 @@ def rule_terminate(A: Analysis, rep, rule: str):
         tx = norm(par.test)
         if not (tx.endswith(".pid is None") or tx.endswith("< 0")):
             ok_skip = False
-    rep.check(ok_iter and ok_kill and ok_h and ok_skip, rule, "terminate_processes covers all", tp.node,
-              "SIGTERM to the process group of every registered process; only ESRCH/ECHILD ignored",
-              "terminate_processes: iterates all=%s; %s; handlers ok=%s; skips ok=%s" % (ok_iter, det, ok_h, ok_skip))
+    brk = [x for x in walk_local(tp.node) if isinstance(x, (ast.Break, ast.Return))]
+    rep.check(ok_iter and ok_kill and ok_h and ok_skip and ok_contain and not brk, rule, "terminate_processes covers all", tp.node,
+              "SIGTERM to the process group of every registered process; only ESRCH/ECHILD ignored, per entry",
+              "terminate_processes: iterates all=%s; %s; ignored errors ok=%s; skips ok=%s; %s%s" % (ok_iter, det, ok_h, ok_skip, cdet, "; early exit from the loop" if brk else ""))
 
 
 # --------------------------------------------------------------------------- EX11..EX15, J1 (C04)
